@@ -2141,6 +2141,14 @@ class Transport(threading.Thread, ClosingContextManager):
             reply.add_int(OPEN_FAILED_ADMINISTRATIVELY_PROHIBITED)
             reply.add_string("")
             reply.add_string("en")
+        else:
+            # Replies (request success/failure, channel open success/failure)
+            # to requests we cannot have made yet: nothing sensible to answer.
+            raise SSHException(
+                "Received {} before authentication".format(
+                    MSG_NAMES.get(ptype, f"msg {ptype}")
+                )
+            )
         # NOTE: Post-open channel messages do not need checking; the above will
         # reject attempts to open channels, meaning that even if a malicious
         # user tries to send a MSG_CHANNEL_REQUEST, it will simply fall under
